@@ -356,16 +356,25 @@ def visible (tbl : Table) (w : World) (t : Name) : Bool :=
     | .action _ => true
     | .targets => tk.targets.any fun p => p ∈ w.files || p ∈ w.dirs
 
+/-- the declarative clean set, computed without the traversal: `tbl.length` rounds of adding dependencies, or the
+    base list plus direct sub-tasks -/
+def declSet (tbl : Table) (r : Req) (base : List Name) : List Name :=
+  if withDeps r then closeN (depsOf tbl) tbl.length base
+  else base ++ base.flatMap (fun n => (taskDepOf tbl n).filter (fun d => isSubOf tbl d n))
+
+/-- run-time check that `declSet` reached the fixpoint (closed under dependencies); with it `declSet` is exactly
+    `InCleanSet` (`mem_declSet_iff`), without any bound on path lengths having to be proved -/
+def declClosed (tbl : Table) (r : Req) (base : List Name) : Bool :=
+  !withDeps r || (declSet tbl r base).all fun a => (depsOf tbl a).all fun b => b ∈ declSet tbl r base
+
 /-- the order part of the property statement, evaluated on an observed sequence `o` of tasks whose clean
     behaviour was seen: no task twice; exactly the visible members of the clean set (`base` closed under
     dependencies, or plus sub-tasks); dependents first when dependencies are included and the graph is acyclic -/
 def monitorOrder (tbl : Table) (r : Req) (base : List Name) (w : World) (o : List Name) : Bool :=
-  let full :=
-    if withDeps r then closeN (depsOf tbl) tbl.length base
-    else base ++ base.flatMap (fun n => (taskDepOf tbl n).filter (fun d => isSubOf tbl d n))
-  decide o.Nodup
-  && subset o (full.filter (visible tbl w))
-  && subset (full.filter (visible tbl w)) o
+  declClosed tbl r base
+  && decide o.Nodup
+  && subset o ((declSet tbl r base).filter (visible tbl w))
+  && subset ((declSet tbl r base).filter (visible tbl w)) o
   && (!(withDeps r && acyclicB tbl) || depFirstB (depsOf tbl) o)
 
 /-- targets of `clean: True` tasks among `cleaned` -/
